@@ -67,3 +67,36 @@ out['survivors_that_fail_unit_tests'] = sum(1 for s in surv if s['unit_tests'] =
 out['per_file'] = dict(collections.Counter(r['file'] for r in rs))
 json.dump(out, open('/verif/mutants/campaign_summary.json', 'w'), indent=1)
 print({k: v for k, v in out.items() if k != 'survivors'})
+
+# ---- second campaign (operator set 2) ----
+import os
+if os.path.exists('/verif/work/mutation_campaign2.jsonl'):
+    rs2 = {}
+    for l in open('/verif/work/mutation_campaign2.jsonl'):
+        r = json.loads(l); rs2[(r['file'], r['line'], r['after'])] = r
+    rs2 = list(rs2.values())
+    def cls2(r):
+        a, b, ln, f = r['after'], r['before'], r['line'], r['file']
+        if '*c > 1' in a or 'a > 1' in a: return 'equivalent: the only value that changes side (1) maps to the default 1 anyway'
+        if 'expect(' in a: return 'equivalent: only the text of an expect() message changed'
+        if f.endswith('parser_listener.rs') and ln == 90: return 'equivalent: only a parameter name in a trait declaration changed'
+        if ln == 1034 or ln == 1035: return 'unobservable: report_device_attributes only calls write_process_input, a no-op'
+        if ln in (173, 440): return 'equivalent: the cursor is homed right afterwards'
+        if ln == 236: return 'unspecified: where the cursor column ends after resize() (the statement only demands inside the new bounds)'
+        if ln == 338: return 'equivalent under the documented leniency: pushing an empty placeholder equals skipping it; a non-placeholder cell after a wide lead may be rendered or skipped'
+        if ln == 1225: return 'equivalent: falling through, the general path resets again'
+        if ln == 1223: return 'equivalent: [0] takes the general path with the same result'
+        if ln in (735, 688, 225, 463, 897, 989): return 'equivalent: the extra work is overwritten / a no-op (empty range, selector 2/3 already erased, value recomputed)'
+        if ln == 1168: return 'allowed: marks all rows dirty more often (over-approximation is permitted)'
+        if f.endswith('parser.rs') and ln == 154: return 'unobservable on the screen: CAN/SUB inside a CSI still ends the sequence, only the no-op draw() of the control character disappears'
+        if f.endswith('parser.rs') and ln == 192: return 'unspecified: OSC R / OSC P are excluded from C03/C19'
+        if f.endswith('parser.rs') and ln == 190: return 'equivalent: the final else of the recogniser is unreachable (every character the FSM is handed is BASIC, a CSI or an OSC introducer)'
+        return 'UNCLASSIFIED'
+    killed2 = [r for r in rs2 if r['status'] == 'killed']
+    surv2 = [dict(file=r['file'], line=r['line'], before=r['before'], after=r['after'], unit_tests=r['unit_tests'], **{'class': cls2(r)}) for r in rs2 if r['status'] == 'SURVIVED']
+    out2 = {'candidates': len(rs2), 'does_not_compile': sum(1 for r in rs2 if r['status'] == 'does-not-compile'), 'compiling': len(killed2) + len(surv2), 'killed_by_checks': len(killed2),
+            'killed_by_checks_while_all_91_unit_tests_pass': sum(1 for r in killed2 if r['unit_tests'] == 'pass'),
+            'first_killer': dict(collections.Counter(r['killed_by'] for r in killed2).most_common()),
+            'survivors': sorted(surv2, key=lambda s: (s['file'], s['line'])), 'survivor_classes': dict(collections.Counter(s['class'].split(':')[0] for s in surv2))}
+    json.dump(out2, open('/verif/mutants/campaign2_summary.json', 'w'), indent=1)
+    print({k: v for k, v in out2.items() if k != 'survivors'})
